@@ -1,5 +1,9 @@
 #!/bin/bash
 # Build the whole Lean development from the files on disk (offline, no Mathlib require).
+# The Gen/*.lean files are regenerated from /repo's current source first.
 set -e
-cd "$(dirname "$0")/lean"
+cd "$(dirname "$0")"
+export PYTHONDONTWRITEBYTECODE=1
+/venv/bin/python -W ignore::SyntaxWarning -m harness.regen
+cd lean
 timeout 3000 lake build SqVerif
